@@ -228,6 +228,15 @@ def check_domixin(ctx, tu, f):
         except F.Unsupported:
             ok = False
         ctx.ob('C12.F1', f, 'a mixin without mixinBeforeDispatch accepts every dispatch', ok, key_detail='domixin default')
+        # ... but the filter mixins do have the hook, for whatever arguments a dispatch of this dispatcher can carry: if the "no hook"
+        # overload was the one selected at a filter mixin's level, its hook dropped out of overload resolution for these argument
+        # types (an over-tight constraint) and every filter is silently skipped
+        ta = f.d.get('targs') or []
+        level = tu.tstr(ta[0]).strip() if ta and isinstance(ta[0], int) else ''
+        if level.startswith(('eventpp::MixinFilter<', 'eventpp::MixinHeterFilter<')):
+            ctx.ob('C12.F1', f, 'at the level of a filter mixin the hook is the overload selected', False,
+                   detail='for %s the dispatcher took the "mixin has no hook" path: the filters do not run for these argument types' % f.q[-160:],
+                   key_detail='filter hook not selected')
 
 
 def check_filter(ctx, tu, f, ma):
@@ -263,6 +272,13 @@ def check_filter(ctx, tu, f, ma):
             lv = all(lam.nodes[lam.strip(a)].get('vk') == 'l' for a in args)
             ok = got == want and lv
         ctx.ob('C12.F3', lam, 'each filter is called once with the dispatch arguments as lvalues, and its own result is returned', ok)
+        # the filter that runs is the stored one: the visitor receives it by reference. Received by value, every dispatch would run a fresh
+        # copy of the filter as it was when it was added - a filter that keeps state in itself (a budget, "only once") never reaches the
+        # point where it returns false
+        if lam.params:
+            pk = lam.params[0].get('pass')
+            ctx.ob('C12.F3', lam, 'the visitor receives the stored filter by reference (the stored filter itself is run, not a copy)',
+                   pk in ('lref', 'clref', 'rref'), detail='parameter passing: %s' % pk, key_detail='filter by reference')
         vs, _ = ma.violations(lam)
         ctx.ob('C12.F3', lam, 'no filter receives a moved-from argument', not vs, detail='\n'.join(v['msg'] for v in vs[:2]))
 
